@@ -10,6 +10,7 @@ import common
 import e1
 import e2
 import e2_c06
+import e2_c11
 import e2_c12
 from common import BUILD, Machinery
 
@@ -209,6 +210,8 @@ PROPS["C18"] = _e1({
 })
 
 PROPS["C06"] = lambda prop, tier, seed, t0: e2_c06.run(prop, tier, seed, t0)
+
+PROPS["C11"] = lambda prop, tier, seed, t0: e2_c11.run(prop, tier, seed, t0)
 
 PROPS["C12"] = lambda prop, tier, seed, t0: e2_c12.run(prop, tier, seed, t0)
 
